@@ -419,6 +419,11 @@ impl SkipList<Vec<u8>, f64> {
     pub fn verif_any<const N: usize>(h: [usize; N]) -> (Self, [u8; N], [f64; N]) {
         any_list::<Vec<u8>, N>(h)
     }
+    /// list of the given tower shape holding exactly the given (member byte, score) pairs, which the
+    /// caller has ordered by (score, member)
+    pub fn verif_from<const N: usize>(h: [usize; N], k: [u8; N], s: [f64; N]) -> Self {
+        mk_list(h, k.map(|b| <Vec<u8> as KB>::mk(b)), s, <Vec<u8> as KB>::mk(0))
+    }
     /// assert the structural invariant, return the level-0 chain
     pub fn verif_check(&self) -> (usize, [u8; CAP], [f64; CAP]) {
         let sn = check_inv(self);
